@@ -162,7 +162,9 @@ def gen(max_rows=10):
                 if fr["cols"][c]["dtype"] == "float64" and fr["cols"][c]["values"][pos] is not None:
                     fr["cols"][c]["values"][pos] = float(sg)
         fc = draw(F.formulas(max_terms=3, max_factors=2))
-        if draw(st.integers(0, 5)) == 0:
+        if draw(st.integers(0, 11)) == 0:
+            fc = {"intercept": False, "terms": []}  # a part without any column still has rows (and an index)
+        elif draw(st.integers(0, 5)) == 0:
             fc = {"intercept": fc["intercept"], "terms": F.normalize_terms(fc["terms"] + [[{"k": "hashed", "col": "G", "levels": 3}]])}
         na = draw(st.sampled_from(["drop", "drop", "drop", "raise", "ignore"]))
         return {
